@@ -166,58 +166,78 @@ Fixpoint zlist_eqb (a b : list Z) : bool :=
   | _, _ => false
   end.
 
-(* ---- NTS pool (nts_pool.rs): bookkeeping only; the key exchange, the TCP connection and the
-   resolution of the answer are oracles.  One loop iteration of try_spawn: ---- *)
+(* ---- NTS pool (nts_pool.rs).  The model mirrors the REPAIRED code (branch fix-c35-nts: the
+   resolved socket address is kept per source and a key exchange result whose resolved address
+   already has a source is skipped); the loop of the unrepaired code (no address test) is kept,
+   with chk = false, only to exhibit the defect.  The TCP connection, the key exchange and the
+   resolution of the server the key exchange names are oracles.  One loop iteration of
+   try_spawn: ---- *)
 Inductive ke_outcome :=
 | KeNoLookup                                  (* lookup() returned None: return Ok(()) *)
-| KeOk (srv_name : option Z) (ke_remote : Z) (resolves : bool)
-                                              (* exchange_keys Ok; names are abstract identifiers *)
+| KeOk (srv_name : option Z) (ke_remote : Z) (resolved : option Z)
+                                              (* exchange_keys Ok; names are abstract identifiers;
+                                                 resolved: the socket address (ip and port, one
+                                                 abstract identifier) resolve_single_ntp_server
+                                                 gives for ke_remote:ke_port, None = no address *)
 | KeError                                     (* Ok(Err(e)): break *)
 | KeTimeout.                                  (* Err(_): next iteration *)
 
-Record ntspool := mkntspool { ncurrent : list (Z * Z) (* (ClockId, remote name) *); nnext_id : Z }.
+(* current_sources: (ClockId, (remote name, socket address)) *)
+Record ntspool := mkntspool { ncurrent : list (Z * (Z * Z)); nnext_id : Z }.
+Definition nnames (cur : list (Z * (Z * Z))) : list Z := map (fun p => fst (snd p)) cur.
+Definition naddrs (cur : list (Z * (Z * Z))) : list Z := map (fun p => snd (snd p)) cur.
 
-Definition has_remote (name : Z) (cur : list (Z * Z)) : bool := memZ name (map snd cur).
+Definition has_remote (name : Z) (cur : list (Z * (Z * Z))) : bool := memZ name (nnames cur).
+Definition has_addr (a : Z) (cur : list (Z * (Z * Z))) : bool := memZ a (naddrs cur).
 
 (* `for _ in 0..count.saturating_sub(current.len())` with one oracle outcome per iteration
    (a missing outcome is read as KeNoLookup) *)
-Fixpoint nts_iter (k : nat) (outs : list ke_outcome) (st : ntspool) : ntspool * list (Z * Z) :=
+Fixpoint nts_iter_with (chk : bool) (k : nat) (outs : list ke_outcome) (st : ntspool)
+  : ntspool * list (Z * (Z * Z)) :=
   match k with
   | O => (st, [])
   | S k' =>
       match outs with
       | [] | KeNoLookup :: _ => (st, [])
       | KeError :: _ => (st, [])
-      | KeTimeout :: r => nts_iter k' r st
-      | KeOk srv remote resolves :: r =>
+      | KeTimeout :: r => nts_iter_with chk k' r st
+      | KeOk srv remote resolved :: r =>
           let key := match srv with Some s => s | None => remote end in
-          if has_remote key (ncurrent st) then nts_iter k' r st      (* "address we already had" *)
-          else if resolves then
-            let st' := mkntspool (ncurrent st ++ [(nnext_id st, key)]) (nnext_id st + 1) in
-            let res := nts_iter k' r st' in (fst res, (nnext_id st, key) :: snd res)
-          else nts_iter k' r st
+          if has_remote key (ncurrent st) then nts_iter_with chk k' r st   (* "address we already had" *)
+          else match resolved with
+               | None => nts_iter_with chk k' r st
+               | Some a =>
+                   if chk && has_addr a (ncurrent st) then nts_iter_with chk k' r st   (* fix-c35-nts: continue *)
+                   else
+                     let st' := mkntspool (ncurrent st ++ [(nnext_id st, (key, a))]) (nnext_id st + 1) in
+                     let res := nts_iter_with chk k' r st' in (fst res, (nnext_id st, (key, a)) :: snd res)
+               end
       end
   end.
+Definition nts_iter := nts_iter_with true.
 
-Definition nts_try_spawn (n : nat) (st : ntspool) (outs : list ke_outcome) :=
-  nts_iter (n - length (ncurrent st)) outs st.
+Definition nts_try_spawn_with (chk : bool) (n : nat) (st : ntspool) (outs : list ke_outcome) :=
+  nts_iter_with chk (n - length (ncurrent st)) outs st.
+Definition nts_try_spawn := nts_try_spawn_with true.
 Definition nts_removed (st : ntspool) (id : Z) : ntspool :=
   mkntspool (filter (fun p => negb (fst p =? id)) (ncurrent st)) (nnext_id st).
 
 Inductive nts_op := NtsTrySpawn (outs : list ke_outcome) | NtsRemoved (id : Z).
-Fixpoint nts_exec (n : nat) (ops : list nts_op) (st : ntspool) : ntspool :=
+Fixpoint nts_exec_with (chk : bool) (n : nat) (ops : list nts_op) (st : ntspool) : ntspool :=
   match ops with
   | [] => st
-  | NtsTrySpawn outs :: r => nts_exec n r (fst (nts_try_spawn n st outs))
-  | NtsRemoved id :: r => nts_exec n r (nts_removed st id)
+  | NtsTrySpawn outs :: r => nts_exec_with chk n r (fst (nts_try_spawn_with chk n st outs))
+  | NtsRemoved id :: r => nts_exec_with chk n r (nts_removed st id)
   end.
+Definition nts_exec := nts_exec_with true.
+Definition nts_exec_unrepaired := nts_exec_with false.
 
 (* ---- NTS pool: encoding for the correspondence check (harness/ntpd/c35n.rs) ----
    The harness runs a key exchange server on a loopback port whose behaviour per accepted
    connection is scripted; with enable_srv_resolution = false every loop iteration of try_spawn
    makes exactly one connection attempt, so the script IS the list of oracle outcomes:
      connection refused (listener closed)            -> KeNoLookup
-     answer naming server k (k resolves or not)      -> KeOk None k resolves
+     answer naming server k and port p               -> KeOk None k (the address of k:p, if any)
      connection dropped / no common protocol         -> KeError
      accepted and never answered (NTS_TIMEOUT, 5 s)  -> KeTimeout *)
 Definition nts_is_complete (n : nat) (st : ntspool) : bool := (n <=? length (ncurrent st))%nat.
@@ -236,11 +256,11 @@ Fixpoint nts_conns (k : nat) (outs : list ke_outcome) : Z :=
       end
   end.
 
-Fixpoint enc_nsources (l : list (Z * Z)) : list Z :=
-  match l with [] => [] | (i, k) :: r => i :: k :: enc_nsources r end.
+Fixpoint enc_nsources (l : list (Z * (Z * Z))) : list Z :=
+  match l with [] => [] | (i, (k, a)) :: r => i :: k :: a :: enc_nsources r end.
 
-(* per op: NtsTrySpawn -> [connections; n; (id name)*n; complete]   NtsRemoved -> [complete]
-   at the end: [|current_sources|; (id name)*] *)
+(* per op: NtsTrySpawn -> [connections; n; (id name address)*n; complete]   NtsRemoved -> [complete]
+   at the end: [|current_sources|; (id name address)*] *)
 Fixpoint run_nts_ops (n : nat) (ops : list nts_op) (st : ntspool) : list Z :=
   match ops with
   | [] => Z.of_nat (length (ncurrent st)) :: enc_nsources (ncurrent st)
@@ -262,7 +282,7 @@ Definition run_nts (i : nat * list nts_op) : list Z :=
    resolution whose port is closed, so the queue never runs empty without a connection error and
    the DNS is never asked.  The queue determines the oracle outcomes of the loop iterations: ---- *)
 Inductive srv_beh :=
-| SbOk (ke_remote : Z) (resolves : bool)     (* key exchange completes *)
+| SbOk (ke_remote : Z) (resolved : option Z) (* key exchange completes *)
 | SbError                                    (* connection dropped / no common protocol *)
 | SbTimeout                                  (* never answered *)
 | SbRefused.                                 (* nothing listens at the resolved address *)
@@ -272,7 +292,7 @@ Definition srv_entry := (option Z * srv_beh)%type.
 (* the `while let Some(addr) = known_resolutions.pop_front()` loop of lookup(): resolutions whose
    SRV name already has a source are dropped, so are those that cannot be connected to; the
    result is the resolution connected to (None: queue exhausted) and the queue left *)
-Fixpoint srv_lookup (q : list srv_entry) (cur : list (Z * Z)) : option srv_entry * list srv_entry :=
+Fixpoint srv_lookup (q : list srv_entry) (cur : list (Z * (Z * Z))) : option srv_entry * list srv_entry :=
   match q with
   | [] => (None, [])
   | (srv, b) :: r =>
@@ -285,7 +305,7 @@ Fixpoint srv_lookup (q : list srv_entry) (cur : list (Z * Z)) : option srv_entry
 
 Definition srv_outcome (e : srv_entry) : ke_outcome :=
   match snd e with
-  | SbOk remote resolves => KeOk (fst e) remote resolves
+  | SbOk remote resolved => KeOk (fst e) remote resolved
   | SbError => KeError
   | SbTimeout => KeTimeout
   | SbRefused => KeNoLookup
